@@ -224,6 +224,8 @@ def check(ctx):
         r2_cursor(ctx, f, rep)
         r3_siblings(ctx, f, rep)
         r4_derives(ctx, f, rep)
-        rep.rule('C20-R5', 'Foca stays well-formed when encoding fails mid-feed: truncate-and-stop (C07-R4)')
+        rep.rule('C20-R5', 'Foca stays well-formed when encoding fails mid-feed: truncate-and-stop (C07-R4), the size limit set once (C07-R3)')
         c07.r4_count(ctx, f, _Rename(rep, 'C07-R4', 'C20-R5'))
+        # ... and nothing touches the datagram buffer (or its limit) but the writers of the sections (C07-R3)
+        c07.r3_sections(ctx, f, _Rename(rep, 'C07-R3', 'C20-R5'), c07.tables(ctx, f, _Rename(rep, 'C07-R3', 'C20-R5')))
     rep.cur_config = None
